@@ -57,6 +57,57 @@ def component_types(d):
     return sorted(x for x in out if x)
 
 
+JT = [("num", "number"), ("str", "string"), ("bool", "boolean"), ("int", "integer")]
+
+
+def inst_program(rng):
+    """a recursive schema instantiated several times, directly and from inside other functions (1 and 2 levels), with
+    different arguments; returns the program and, for each response status, the expected head type at every leaf path"""
+    a, b, c = rng.sample(JT, 3)
+    d = rng.choice(JT)
+    src = ("let list x = rec l { 'head x, 'tail [l] };\n"
+           "let pair x y = { 'left (list x), 'right (list y) };\n"
+           "let deep x y z = { 'p (pair x y), 'q (pair y z), 'r (list z), 's (pair z z) };\n"
+           "res /inst on get -> <status=200, (deep %s %s %s)> :: <status=404, (pair %s %s)> :: <status=500, (list %s)> :: <status=501, (deep %s %s %s)>;\n"
+           % (a[0], b[0], c[0], c[0], a[0], b[0], d[0], a[0], d[0]))
+    deep = lambda x, y, z: {("p", "left"): x, ("p", "right"): y, ("q", "left"): y, ("q", "right"): z, ("r",): z, ("s", "left"): z, ("s", "right"): z}
+    exp = {"200": deep(a[1], b[1], c[1]), "404": {("left",): c[1], ("right",): a[1]}, "500": {(): b[1]}, "501": deep(d[1], a[1], d[1])}
+    return src, exp
+
+
+def inst_check(doc, exp):
+    comps = (doc.get("components") or {}).get("schemas") or {}
+
+    def deref(s):
+        n = 0
+        while isinstance(s, dict) and "$ref" in s and n < 10:
+            s = comps.get(s["$ref"].rsplit("/", 1)[1])
+            n += 1
+        return s
+    try:
+        rs = doc["paths"]["/inst"]["get"]["responses"]
+        for status, leaves in exp.items():
+            media = list(rs[status]["content"].values())[0]
+            root = media["schema"]
+            for path, jt in leaves.items():
+                node = root
+                for f in path:
+                    node = deref(node)["properties"][f]
+                if "$ref" not in node:
+                    return "an instantiation of a recursive schema is not a $ref to a component (response %s, %s)" % (status, "/".join(path))
+                comp = deref(node)
+                got = deref(comp["properties"]["head"]).get("type")
+                if got != jt:
+                    return ("two instantiations of a recursive schema share a component: response %s, %s holds head type %s, the program says %s"
+                            % (status, "/".join(path) or "(root)", got, jt))
+                tail = comp["properties"]["tail"]["items"]
+                if tail.get("$ref") != node["$ref"]:
+                    return "the recursion point of an instantiation does not refer to its own component (response %s, %s)" % (status, "/".join(path))
+    except Exception as ex:    # the document does not have the expected shape
+        return "the document of an instantiation program does not have the declared shape: %r" % (ex,)
+    return None
+
+
 def check(ctx):
     ctx.proof = core.proof_stage("C09", thorough=ctx.thorough)
     ok, out = core.ensure_harness()
@@ -137,6 +188,24 @@ def check(ctx):
         prob = chk(r["doc"])
         if prob:
             ctx.violation(prob, {"program": {"mods": m, "main": "file:///w/main.oal"}}, "see message", "see message")
+    # (b') instantiations of one recursive schema, nested in function bodies
+    ips = [inst_program(ctx.rng) for _ in range(60 if ctx.thorough else 12)]
+    ires = progs.compile_many([{"mods": {"file:///w/main.oal": src}, "main": "file:///w/main.oal"} for src, _ in ips])
+    for (src, exp), r in zip(ips, ires):
+        ctx.cov["evaluations"] += 1
+        inp = {"program": {"mods": {"file:///w/main.oal": src}, "main": "file:///w/main.oal"}}
+        if r.get("status") != "ok":
+            ctx.violation("a recursive program that must compile is not compiled", inp, "ok", r.get("msg"))
+            continue
+        prob = inst_check(r["doc"], exp)
+        if prob:
+            ctx.violation(prob, inp, "one component per instantiation", "see message")
+        else:
+            ctx.count("instantiations_distinct")
+    # the evaluator tie on the recursive programs (Model/Eval.v keys implicit components by (node, innermost scope))
+    from . import evaltie
+    evaltie.run(ctx, [{"mods": {"file:///w/main.oal": src}, "main": "file:///w/main.oal"} for src, _ in ips]
+                + [{"mods": m, "main": "file:///w/main.oal"} for m, _ in TEMPLATES] + [c[0] for c in cy[: (600 if ctx.thorough else 150)]])
     # (c) relocation
     gp = [p for p in progs.gen_programs(ctx, 1500 if ctx.thorough else 400, multi=True)]
     r1 = progs.compile_many(gp)
